@@ -18,7 +18,7 @@ package main
 //      file changes; for the shape with a failing body a marker file makes the body fail from then on);
 //   2. several spellings of the dry run of that group, one after the other;
 //   3. the same invocation WITHOUT the flag (one of its spellings: `dawn`, `dawn build`, `--dry-run=false`, ...).
-// Every body appends its label to a log file OUTSIDE the project, so executions are seen whatever the renderer prints.
+// Every body appends a line to a log file of its own OUTSIDE the project, so executions are seen whatever the renderer prints.
 //
 // Oracles (names are the ORACLE records' "name"):
 //   cli-dry-run-executed-bodies    the body log is empty after a dry run;
@@ -37,6 +37,7 @@ package main
 //   {"t":"group","shape":..,"state":..,"always":bool,"target":..,"cwd":..,"dry":[{"args":[..],"announced":[..],"exit":0}..],
 //    "real":{"args":[..],"announced":[..],"bodies":[..],"exit":0}}
 //   {"t":"ORACLE","name":..,"detail":..,"group":{shape,state,always,target,cwd,files:{path:text},prepare:[..],"dry_args":[..],"real_args":[..]}}
+// (bodies: a label once per execution of its body)
 //   {"t":"stats","counts":{..}}
 
 import (
@@ -90,7 +91,7 @@ func TestVerifC13CLIChild(t *testing.T) {
 // ---------------------------------------------------------------- projects
 
 type c13target struct {
-	Pkg     string   // "" = root package, else "pkg" / "pkg/sub"
+	Pkg     string // "" = root package, else "pkg" / "pkg/sub"
 	Name    string
 	Deps    []string // labels
 	Srcs    []string // file names in the package directory
@@ -191,7 +192,9 @@ func (s *c13shape) files(root, logPath string) map[string]string {
 			if t.Always {
 				b.WriteString(", always=True")
 			}
-			cmd := fmt.Sprintf("echo '%s' >> '%s' && cat %s /dev/null > %s.out", t.label(), logPath, strings.Join(t.Srcs, " "), t.Name)
+			// one log file per target (logPath is a directory): the shell that runs the bodies writes a line and its end
+			// separately, so concurrent bodies appending to one file would run their lines together
+			cmd := fmt.Sprintf("echo x >> '%s' && cat %s /dev/null > %s.out", filepath.Join(logPath, c13logName(t.label())), strings.Join(t.Srcs, " "), t.Name)
 			if t.Fails {
 				cmd += fmt.Sprintf(" && test ! -e '%s'", filepath.Join(root, "fail.flag"))
 			}
@@ -307,13 +310,15 @@ type c13env struct {
 
 func (e *c13env) dawn(cwd, logPath string, args []string) c13run {
 	// --json / --dot write where the user says: a file of this worker's, outside the project
+	typed := args
 	args = append([]string{}, args...)
 	for i, a := range args {
 		if a == "<J>" {
 			args[i] = filepath.Join(e.scratch, e.id+".events")
 		}
 	}
-	os.Remove(logPath)
+	os.RemoveAll(logPath)
+	os.MkdirAll(logPath, 0o755)
 	res := filepath.Join(e.scratch, e.id+".res")
 	os.Remove(res)
 	ctx, cancel := context.WithTimeout(context.Background(), 90*time.Second)
@@ -326,7 +331,7 @@ func (e *c13env) dawn(cwd, logPath string, args []string) c13run {
 	var so, se bytes.Buffer
 	cmd.Stdout, cmd.Stderr = &so, &se
 	err := cmd.Run()
-	r := c13run{Args: args, Announced: []string{}, Bodies: []string{}}
+	r := c13run{Args: typed, Announced: []string{}, Bodies: []string{}}
 	code, rerr := os.ReadFile(res)
 	switch {
 	case ctx.Err() != nil:
@@ -347,16 +352,20 @@ func (e *c13env) dawn(cwd, logPath string, args []string) c13run {
 		}
 	}
 	sort.Strings(r.Announced)
-	if b, err := os.ReadFile(logPath); err == nil {
-		for _, l := range strings.Split(strings.TrimSpace(string(b)), "\n") {
-			if l != "" {
-				r.Bodies = append(r.Bodies, l)
+	// one entry per execution: a label occurs as often as its body ran
+	if es, err := os.ReadDir(logPath); err == nil {
+		for _, e := range es {
+			b, _ := os.ReadFile(filepath.Join(logPath, e.Name()))
+			for k := 0; k < strings.Count(string(b), "x"); k++ {
+				r.Bodies = append(r.Bodies, strings.ReplaceAll(e.Name(), "%", "/"))
 			}
 		}
 	}
 	sort.Strings(r.Bodies)
 	return r
 }
+
+func c13logName(label string) string { return strings.ReplaceAll(label, "/", "%") }
 
 func c13tail(s string) string {
 	if len(s) > 400 {
@@ -485,7 +494,7 @@ func c13play(env *c13env, g *c13group, emit func(any), count func(string)) {
 	describe := func(dry []string) map[string]any {
 		return map[string]any{"shape": g.Shape.Name, "state": g.State, "always": g.Always, "target": g.Target, "cwd": "<root>/" + g.Cwd,
 			"files": files, "prepare": prepare, "dry_args": dry, "real_args": append(append([]string{}, g.Real...), c13arg(g.Target)...),
-			"bodies_log": "every body appends its label to a file outside the project"}
+			"bodies_log": "every body appends a line to a file of its own outside the project (the quoted path after >>)"}
 	}
 	fail := func(name, detail string, dry []string) {
 		count("oracle:" + name)
@@ -612,7 +621,7 @@ func c13play(env *c13env, g *c13group, emit func(any), count func(string)) {
 			}
 		}
 	}
-	for i, r := range dries {
+	for _, r := range dries {
 		D := c13set(r.Announced)
 		var missing, extra, unannounced []string
 		for l := range E {
@@ -639,7 +648,7 @@ func c13play(env *c13env, g *c13group, emit func(any), count func(string)) {
 			}
 			fail(name, fmt.Sprintf("`dawn %s` announced %v; `dawn %s` then announced %v and ran the bodies %v (attempted but not announced: %v; announced but not attempted%s: %v; bodies not announced: %v)",
 				strings.Join(r.Args, " "), r.Announced, strings.Join(rargs, " "), real.Announced, real.Bodies, missing,
-				map[bool]string{true: " and not downstream of the failure", false: ""}[real.Exit != 0], extra, unannounced), g.Dry[i])
+				map[bool]string{true: " and not downstream of the failure", false: ""}[real.Exit != 0], extra, unannounced), r.Args)
 			break
 		}
 	}
@@ -688,6 +697,10 @@ func c13play(env *c13env, g *c13group, emit func(any), count func(string)) {
 		}
 		for l := range ran {
 			t := g.Shape.byLabel(l)
+			if t == nil {
+				fail("cli-real-build-did-not-build", fmt.Sprintf("`dawn %s`: the body log names %q, which is no target of the project", strings.Join(rargs, " "), l), nil)
+				continue
+			}
 			if _, err := os.Stat(filepath.Join(root, t.Pkg, t.Name+".out")); err != nil {
 				fail("cli-real-build-did-not-build", fmt.Sprintf("`dawn %s`: the output of %s does not exist after the build", strings.Join(rargs, " "), l), nil)
 			}
